@@ -808,7 +808,7 @@ impl Engine for EmitRun {
         json!({"class": "generated-grammar", "grammar_src": c.src})
     }
     fn rule(&self, prop: &str) -> String {
-        let common = "grammars: the repository examples (structure only), the textbook corpus, combinator-built and random grammars, rendered with random fieldset styles / used-skipped masks and payload types from a pool of 9 (usize, String, user struct, Vec, Option, nested BTreeMap, unit, Option<Box<Vec>>, Vec<Option<Box<Rc>>>); names: default, shuffled, confusable, emitter vocabulary, concatenation twins, the hostile pools of C05; each accepted grammar is compiled with rustc and run on: all strings up to a length bound (W1), random sentences (W2), a prefix-extension sweep p·t for every prefix p of short sentences and every terminal t (W3), 1-2 token edits (W4), long sentences up to 5000 tokens (W5, thorough); every input twice (lazy counting iterator + position payloads; Vec, iter::from_fn or a lazy iterator that is NOT fused - 40 tokens that are not part of the input follow the None - + pseudo-random payloads). One evaluation = one execution of the compiled parse()";
+        let common = "grammars: the repository examples (structure only), the textbook corpus, combinator-built and random grammars, rendered with random fieldset styles / used-skipped masks and payload types from a pool of 12 (usize, String, user structs, Vec, Option, nested BTreeMap, unit, Option<Box<Vec>>, Vec<Option<Box<Rc>>>, pairs with equal argument lists under different callees); names: default, shuffled, confusable, emitter vocabulary, concatenation twins, the hostile pools of C05; each accepted grammar is compiled with rustc and run on: all strings up to a length bound (W1), random sentences (W2), a prefix-extension sweep p·t for every prefix p of short sentences and every terminal t (W3), 1-2 token edits (W4), long sentences up to 5000 tokens (W5, thorough); every input twice (lazy counting iterator + position payloads; Vec, iter::from_fn or a lazy iterator that is NOT fused - 40 tokens that are not part of the input follow the None - + pseudo-random payloads). One evaluation = one execution of the compiled parse()";
         match prop {
             "C01" => format!("{common}; compared with membership decided by the canonical LR(1) reference parser, cross-checked by a definitional chart recogniser (<=40 tokens) and an Earley recogniser (<=120 tokens). Distinct non-trivial = distinct (grammar, token sequence) with >=2 productions and >=1 token."),
             "C02" => format!("{common}; for accepted inputs the {{:?}} rendering of the returned tree is compared with the rendering of the reference derivation (validated by a definitional derivation checker). Distinct non-trivial = distinct (grammar, sentence) whose tree has >=2 used leaves."),
